@@ -34,8 +34,12 @@ class PipeSuite:
     def gens(self, tier, sspec):
         raise NotImplementedError
 
-    def corpus_files(self):
-        return sorted(glob.glob(os.path.join(C.VERIF, "corpus", self.name + "-*.txt")))
+    def corpus_files(self, sspec=None):
+        fs = sorted(glob.glob(os.path.join(C.VERIF, "corpus", self.name + "-*.txt")))
+        # witnesses of a known finding are replayed only by the checks of the properties it is listed for
+        if not (sspec or {}).get("kf1"):
+            fs = [f for f in fs if not os.path.basename(f).startswith(self.name + "-kf")]
+        return fs
 
     def _parse(self, text, res, hashes):
         for line in text.splitlines():
@@ -67,7 +71,7 @@ class PipeSuite:
         try:
             procs = []
             jobs = []
-            for cf in self.corpus_files():
+            for cf in self.corpus_files(sspec):
                 jobs.append(("corpus:" + os.path.basename(cf), [self.harness(), self.name, "--cases", cf], {}))
             for (label, hargs, opts) in self.gens(tier, seed, sspec):
                 nshard = opts.get("shards", C.NPROC)
@@ -307,17 +311,20 @@ class ExecSuite(PipeSuite):
         kf1 = sspec.get("kf1", False)
         if tier == "quick":
             g = [("random schedules (free/hold/overlap/jitter)", ["--gen", "random", "--count", "110", "--seed", s], {}),
-                 ("fault injection", ["--gen", "faults", "--count", "50", "--seed", s], {})]
+                 ("fault injection", ["--gen", "faults", "--count", "50", "--seed", s], {}),
+                 ("funnel plans (joined groups) under overlap/jitter", ["--gen", "funnel", "--count", "40", "--seed", s], {})]
             if kf1:
                 g.append(("thread-locals inside batches", ["--gen", "kf1", "--count", "25", "--seed", s], {}))
         elif tier == "thorough":
             g = [("random schedules (free/hold/overlap/jitter)", ["--gen", "random", "--count", "4000", "--seed", s], {}),
-                 ("fault injection", ["--gen", "faults", "--count", "1500", "--seed", s], {})]
+                 ("fault injection", ["--gen", "faults", "--count", "1500", "--seed", s], {}),
+                 ("funnel plans (joined groups) under overlap/jitter", ["--gen", "funnel", "--count", "1500", "--seed", s], {})]
             if kf1:
                 g.append(("thread-locals inside batches", ["--gen", "kf1", "--count", "500", "--seed", s], {}))
         else:
             g = [("search:random", ["--gen", "random", "--count", "500", "--seed", s], {}),
-                 ("search:faults", ["--gen", "faults", "--count", "200", "--seed", s], {})]
+                 ("search:faults", ["--gen", "faults", "--count", "200", "--seed", s], {}),
+                 ("search:funnel", ["--gen", "funnel", "--count", "300", "--seed", s], {})]
             if kf1:
                 g.append(("search:kf1", ["--gen", "kf1", "--count", "100", "--seed", s], {}))
         return g
